@@ -137,7 +137,7 @@ pub fn read_dist_header_msg(body: &[u8], cache: &mut RxCache) -> RRes<DistMsg> {
     }
     let table = read_dist_header_refs(&mut r, cache)?;
     let p0 = r.p;
-    let mut r2 = Rd { b: body, p: p0, cache: Some(&table), depth: 0 };
+    let mut r2 = Rd { b: body, p: p0, cache: Some(&table), depth: 0, tags: [false; 256] };
     let control = read_term(&mut r2)?;
     let payload = if r2.p < body.len() { Some(read_term(&mut r2)?) } else { None };
     if r2.p != body.len() {
